@@ -57,8 +57,9 @@ class Judge:
 
     thunk()            -> result          (must rebuild its tntorch operands itself: it may be run twice)
     verify(result)     -> None | str      (description of the violation)
-    features           -> ordered list of (predicate text, bool): the first true one names the failure class
-    Failure class = {"op", "predicate", "kind"}, kind in raise | shape | value | law.
+    features           -> ordered list of (predicate text, bool[, kinds]): the first true one (whose optional set of failure
+                          kinds contains the observed kind) names the failure class
+    Failure class = {"op", "predicate", "kind"}, kind in raise | shape | value | law | dtype.
     A failure that occurs under a float32 default dtype and disappears under float64 is classed as a dtype defect.
     At most one report per class and case.
     """
@@ -77,8 +78,12 @@ class Judge:
         if v[0] == "err":
             return ("raise", "%s: result cannot be evaluated (%s: %s)" % (what, v[1], v[2]), res[1])
         if v[1] is not None:
-            kind = "shape" if v[1].startswith("shape") else ("law" if v[1].startswith("law") else "value")
-            return (kind, "%s: %s" % (what, v[1]), res[1])
+            m = v[1]
+            if m.startswith("<<") and ">>" in m:          # explicit failure kind chosen by the verifier
+                kind, m = m[2:m.index(">>")], m[m.index(">>") + 2:].strip()
+            else:
+                kind = "shape" if m.startswith("shape") else ("law" if m.startswith("law") else "value")
+            return (kind, "%s: %s" % (what, m), res[1])
         return (None, None, res[1])
 
     def check(self, op, what, thunk, verify, features=()):
@@ -97,10 +102,12 @@ class Judge:
                 msg += " [passes under default dtype float64]"
         if pred is None:
             pred = "any input"
-            for text, on in features:
-                if on:
-                    pred = text
+            for f in features:
+                if f[1] and (len(f) < 3 or kind in f[2]):
+                    pred = f[0]
                     break
+        else:
+            kind = "dtype"
         cls = {"op": op, "predicate": pred, "kind": kind}
         key = repr(sorted(cls.items()))
         ctx.count("fail:%s:%s" % (op, kind))
